@@ -16,6 +16,7 @@ This module also hosts the harness shared with C02 / C04 / C05 (state_run, E2E, 
 
 from __future__ import annotations
 
+import json
 import multiprocessing as mp
 import os
 import random
@@ -200,6 +201,66 @@ class E2E:
         if log.exists():
             log.unlink()
         return res
+
+
+def run_sequence(e2e, builds):
+    """several submissions, one after the other, into ONE cache root in this process (results, constructed workflows and
+    hash caches of the earlier ones are there for the later ones); -> list of dict(stage, exc, out) per submission"""
+    e2e.n += 1
+    root = e2e.base / f"s{e2e.n}"
+    root.mkdir()
+    cwd = os.getcwd()
+    outs = []
+    try:
+        for build in builds:
+            res = {"stage": "build", "exc": None, "out": None}
+            try:
+                with warnings.catch_warnings():
+                    warnings.simplefilter("ignore")
+                    task = build()
+                    res["stage"] = "call"
+                    outputs = task(cache_root=root, worker="debug")
+                    res["stage"] = "done"
+                    res["out"] = outputs.out
+            except Exception as e:
+                res["exc"] = f"{type(e).__name__}: {e}"[:160]
+            finally:
+                os.chdir(cwd)
+            outs.append(res)
+    finally:
+        shutil.rmtree(root, ignore_errors=True)
+    return outs
+
+
+def check_pair_case(e2e, t1, t2, lens):
+    """the same task and the same values split with tree t1, then with tree t2, into one cache root: the second
+    submission must give what t2 means, whatever the first one left behind"""
+    fs = SP.fields_of(t1)
+    inputs = {f: values_for(f, lens[f]) for f in fs}
+    rs = run_sequence(e2e, [lambda: build_F(t1, inputs), lambda: build_F(t2, inputs)])
+    fails = []
+    for which, t, r in (("first", t1, rs[0]), ("second", t2, rs[1])):
+        oc = SP.outcomes(t, lens)
+        exp_out = [SP.REJECT if o == SP.REJECT else plain([job_tuple(fs, inputs, ind) for ind in o]) for o in oc]
+        got = SP.REJECT if r["exc"] is not None else plain(r["out"])
+        if got not in exp_out:
+            fails.append(
+                {
+                    "klass": "singleton-operand-not-first" if (got == SP.REJECT and singleton_nonfirst(t)) else None,
+                    "what": f"F.split({t1!r}) then F.split({t2!r}) on the same values (lengths {lens}) into one cache root: the {which} submission "
+                    + (f"was rejected ({r['exc']})" if got == SP.REJECT else f"returned {len(got)} outputs that are not what its splitter means"),
+                    "case": {"layer": "pair", "first": SP.to_json(t1), "second": SP.to_json(t2), "lens": lens, "which": which, "got": got, "admissible": exp_out},
+                }
+            )
+    return fails
+
+
+def _w_pairs(task):
+    e2e = E2E()
+    try:
+        return [(a, b, lens, check_pair_case(e2e, SP.from_json(a), SP.from_json(b), lens)) for a, b, lens in task]
+    finally:
+        e2e.close()
 
 
 def plain(x):
@@ -483,6 +544,26 @@ def _run(ctx):
             if f:
                 ctx.fail(f["klass"], f["what"], f["case"], domain=dom_e)
     ph.mark('e2e')
+    # ---- two submissions with different splitters over the same fields and values
+    t3 = [t for t in SP.splitter_trees(FIELDS, 3, max_wrappers=0, labellings="ordered") if sorted(SP.fields_of(t)) == ["a", "b", "c"]]
+    t2 = [["a", "b"], ("a", "b")]
+    pcases = [(SP.to_json(x), SP.to_json(y), {"a": 2, "b": 2, "c": 2}) for x in t3 for y in t3 if x != y]
+    pcases += [(SP.to_json(x), SP.to_json(y), {"a": 2, "b": 2}) for x in t2 for y in t2 if x != y]
+    if ctx.thorough:
+        pcases += [(SP.to_json(x), SP.to_json(y), {"a": 1, "b": 2, "c": 2}) for x in t3 for y in t3 if x != y]
+    dom_p = ctx.domain(
+        "two splitters, same values, one cache root",
+        bound=f"every ordered pair of different splitter trees over (a, b, c) without wrappers ({len(t3)} trees, lengths 2,2,2" + ("; 1,2,2" if ctx.thorough else "") + ") and over (a, b): the same task with the same values is "
+        "submitted with the first tree and then with the second into one cache root in one process",
+        rule="both submissions must give what their own splitter means (reference semantics); key = (first tree, second tree, lengths); non-trivial always",
+        exhaustive=True,
+    )
+    for part in pmap(_w_pairs, chunks(pcases, 12), serial=not ctx.thorough, chunksize=1):
+        for a, b, lens, fails in part:
+            dom_p.case((a if isinstance(a, str) else json.dumps(a), b if isinstance(b, str) else json.dumps(b), tuple(sorted(lens.items()))), sample={"first": a, "second": b, "lengths": lens})
+            for f in fails:
+                ctx.fail(f["klass"], f["what"], f["case"], domain=dom_p)
+    ph.mark('pairs')
     ph.done()
 
 
